@@ -381,3 +381,12 @@ func scalarCells(cells []value) bool {
 	}
 	return true
 }
+
+func lastIndexByteCells(cells []value, c value) value {
+	for i := len(cells) - 1; i >= 0; i-- {
+		if truth(byteEq(cells[i], c)) {
+			return i
+		}
+	}
+	return -1
+}
